@@ -29,7 +29,7 @@ class HRun:
     __slots__ = ('violations', 'stats', 'log', 'n_ops', 'events')
 
 
-def _jobspec(name, forever, salt=0):
+def _jobspec(name, forever, salt=0, falsy=False):
     # a small seeded duration, so that the final run() has several waves
     # (zlib.crc32, not hash(): strings hash differently in every interpreter)
     import zlib
@@ -37,11 +37,12 @@ def _jobspec(name, forever, salt=0):
         ("%d:%s" % (salt, name)).encode()) % 4]
     return {"id": name, "kind": "job", "cls": "abstract", "critical": False,
             "forever": forever, "script": [["sleep", dur]] if dur else [],
-            "outcome": "ret", "cleanup": [], "handler": []}
+            "outcome": "ret", "cleanup": [], "handler": [], "falsy": falsy}
 
 
-def _schedspec(name):
-    return {"id": name, "kind": "sched", "members": [], "edges": []}
+def _schedspec(name, odd_len=False):
+    return {"id": name, "kind": "sched", "members": [], "edges": [],
+            "odd_len": odd_len}
 
 
 class Exec:
@@ -72,6 +73,8 @@ class Exec:
             return items
         if t == 'tuple':
             return tuple(items)
+        if t == 'iter':
+            return (item for item in items)     # can be walked only once
         return set(items)
 
     def names_in(self, arg, out=None):
@@ -207,12 +210,25 @@ class Exec:
         fn = getattr(self, 'do_' + kind)
         fn(prop, idx, op)
 
-    def _call(self, fn):
-        """returns (value, exception)"""
+    def _call(self, fn, shallow=False):
+        """returns (value, exception); shallow: with the interpreter's
+        recursion limit lowered, so that a scan whose stack depth grows with
+        the graph shows on a chain of ~50 jobs (which then stands for one of
+        ~1000 jobs under the default limit)"""
+        if shallow:
+            import sys
+            old_limit = sys.getrecursionlimit()
+            depth, frame = 0, sys._getframe()
+            while frame is not None:
+                depth, frame = depth + 1, frame.f_back
+            sys.setrecursionlimit(depth + 45)
         try:
             return fn(), None
         except Exception as exc:                        # pylint: disable=W0703
             return None, exc
+        finally:
+            if shallow:
+                sys.setrecursionlimit(old_limit)
 
     def _construct(self, prop, idx, op, lib_call, model_call, clause, site):
         _, exc = self._call(lib_call)
@@ -258,7 +274,8 @@ class Exec:
             if op['scheduler'] is not None:
                 kw['scheduler'] = self.objs[op['scheduler']]
             self.objs[name] = SimJob(self.ctx, _jobspec(name, op['forever'],
-                                                         self.case['salt']),
+                                                         self.case['salt'],
+                                                         bool(op.get('falsy'))),
                                      forever=op['forever'], critical=False,
                                      **kw)
         self.model.kind[name] = 'job'       # known to lib_state from now on
@@ -276,7 +293,8 @@ class Exec:
             items = [self.build_arg(i) for i in op['items']]
             if op['pure']:
                 self.objs[name] = SimPureScheduler(
-                    *items, ctx=self.ctx, spec=_schedspec(name))
+                    *items, ctx=self.ctx,
+                    spec=_schedspec(name, bool(op.get('odd_len'))))
             else:
                 kw = {}
                 if op['required'] is not None:
@@ -284,7 +302,8 @@ class Exec:
                 if op['scheduler'] is not None:
                     kw['scheduler'] = self.objs[op['scheduler']]
                 self.objs[name] = SimScheduler(
-                    *items, ctx=self.ctx, spec=_schedspec(name),
+                    *items, ctx=self.ctx,
+                    spec=_schedspec(name, bool(op.get('odd_len'))),
                     forever=op['forever'], critical=False, **kw)
         self.model.kind[name] = 'pure' if op['pure'] else 'sched'
 
@@ -381,8 +400,10 @@ class Exec:
 
     def do_update(self, prop, idx, op):
         def lib():
-            self.objs[op['sched']].update(
-                [self.build_arg(i) for i in op['items']])
+            items = [self.build_arg(i) for i in op['items']]
+            if op.get('as_iter'):
+                items = (item for item in items)
+            self.objs[op['sched']].update(items)
 
         def mod():
             self.model.add(op['sched'], op['items'])
@@ -518,7 +539,7 @@ class Exec:
             return sorted(j.nid for j in it)
 
         def compare(clause, site, fn, want):
-            got, exc = self._call(lambda: names(fn()))
+            got, exc = self._call(lambda: names(fn()), shallow=True)
             if exc is not None:
                 self.bad('C17', clause + ':raises', site, repr(exc), idx)
             elif got != sorted(want):
@@ -584,16 +605,7 @@ class Exec:
         # a scan whose depth grows with the graph must not be mistaken for a
         # cycle: the interpreter's recursion limit is lowered (a chain of ~50
         # jobs here stands for one of ~1000 jobs under the default limit)
-        import sys
-        old_limit = sys.getrecursionlimit()
-        depth, frame = 0, sys._getframe()
-        while frame is not None:
-            depth, frame = depth + 1, frame.f_back
-        sys.setrecursionlimit(depth + 45)
-        try:
-            got, exc = self._call(obj.check_cycles)
-        finally:
-            sys.setrecursionlimit(old_limit)
+        got, exc = self._call(obj.check_cycles, shallow=True)
         if exc is not None:
             self.bad('C15', 'check_cycles-raises', site, repr(exc), idx)
         elif got is not want:
@@ -608,6 +620,11 @@ class Exec:
                 order.append(job.nid)
                 if len(order) > len(members) + 1:
                     break
+                if op.get('query_inside'):
+                    # read-only questions asked about the job at hand
+                    obj.predecessors_upstream(job)
+                    obj.successors_downstream(job)
+                    list(obj.iterate_jobs())
         except Exception as err:                        # pylint: disable=W0703
             raised = err
         if here:
@@ -785,7 +802,8 @@ class Exec:
             lib_ends = (job for job in list(lib_ends))
         _, exc = self._call(lambda: self.objs[sched].keep_only_between(
             starts=lib_starts, ends=lib_ends,
-            keep_starts=op['keep_starts'], keep_ends=op['keep_ends']))
+            keep_starts=op['keep_starts'], keep_ends=op['keep_ends']),
+            shallow=True)
         self.log.append((idx, 'keep_between', type(exc).__name__ if exc
                          else 'ok'))
         if prop != 'C18':
@@ -832,10 +850,10 @@ class Exec:
         finally:
             self.bad = real_bad
 
-    def _do_run(self, prop, idx, op):
-        sched, m = op['sched'], self.model
+    def _runnable(self, sched):
+        m = self.model
         if not m.closed(sched) or not m.acyclic(sched, True):
-            return
+            return None
         tree = set(m.tree_jobs(sched, True))
         # a job must be in one scheduler only; sequences may have put jobs of
         # this tree elsewhere: skip such histories
@@ -844,12 +862,38 @@ class Exec:
             if m.kind[s] in ('sched', 'pure'):
                 for j in m.members[s]:
                     if j in owners:
-                        return
+                        return None
                     owners[j] = s
         for s in tree:
             if m.kind[s] in ('sched', 'pure') and m.members[s] and \
                     all(m.forever[j] for j in m.members[s]):
-                return
+                return None
+        return tree
+
+    def do_prerun(self, prop, idx, op):
+        """the tree is run once in the middle of the history (not judged
+        here): the graph API must answer the same on objects that have been
+        through a run"""
+        if getattr(self, '_prerun_done', False) or \
+                self._runnable(op['sched']) is None or self._multi_owner():
+            self.log.append((idx, 'prerun', 'skipped'))
+            return
+        self._prerun_done = True
+        try:
+            self.objs[op['sched']].run()
+            self.log.append((idx, 'prerun', 'ok'))
+        except (KeyboardInterrupt, SystemExit, GeneratorExit):
+            raise
+        except BaseException as exc:                    # pylint: disable=W0703
+            self.log.append((idx, 'prerun', type(exc).__name__))
+        self.stats['mid_history_runs'] = \
+            self.stats.get('mid_history_runs', 0) + 1
+
+    def _do_run(self, prop, idx, op):
+        sched, m = op['sched'], self.model
+        tree = self._runnable(sched)
+        if tree is None:
+            return
         # half of the forever jobs that nobody requires really never end: a
         # lost wake-up elsewhere then shows as a hang, not as an exception
         import zlib
@@ -960,7 +1004,8 @@ def _show(op):
         if t == 'ref':
             return a['name']
         body = ", ".join(arg(i) for i in a['items'])
-        return {"list": "[%s]", "tuple": "(%s,)", "set": "{%s}"}[t] % body
+        return {"list": "[%s]", "tuple": "(%s,)", "set": "{%s}",
+                "iter": "iter([%s])"}[t] % body
     kind = op['op']
     if kind == 'job':
         return "{}=Job(required={}, scheduler={}{})".format(
